@@ -1,5 +1,7 @@
 import FV.Props.Catalog
 import FV.IoSend
+import FV.AddrIndep
+import FV.EmplaceAccAll
 /-! # C07 — blocking IO delivers the sent sequence under every chunking
 
 Pipe = a script with one entry per `read` / `write` call. "Every interleaving of a sender and a receiver thread over a
@@ -27,6 +29,43 @@ theorem C07_receiver_delivers (t : Ty) (h : t.WF) (hmin : 0 < t.dict.minSize) (m
     (evs : List ReadEv) (hevs : Covers evs ((flat msgs).length + 1)) :
     recvLoop t.dict (msgs.length + 1) evs ⟨base, cap, 0, []⟩ (flat msgs) = msgs.map .msg ++ [.closed] :=
   FV.C07_receiver_delivers t h hmin msgs hmsgs base cap hbase hcap hfit evs hevs
+
+/-- **C07 (receiver), the messages being valid *somewhere*.** Validation and `size()` depend on the address only modulo the
+alignment (`Ty.addrIndep`, for every well-formed type): a message that was valid in the sender's buffer is valid in the receiver's
+window wherever it lands. So it is enough that each sent byte string is the first `size()` bytes of a valid value at *some*
+aligned address. -/
+theorem C07_receiver_delivers_anywhere (t : Ty) (h : t.WF) (hmin : 0 < t.dict.minSize) (msgs : List Bytes)
+    (hmsgs : ∀ m ∈ msgs, ∃ a, a % t.dict.align = 0 ∧ t.dict.validate ⟨a, m⟩ = .ok () ∧ t.dict.size ⟨a, m⟩ = .ok m.length)
+    (base cap : Nat) (hbase : base % t.dict.align = 0) (hcap : 0 < cap) (hfit : ∀ m ∈ msgs, 2 * m.length ≤ cap)
+    (evs : List ReadEv) (hevs : Covers evs ((flat msgs).length + 1)) :
+    recvLoop t.dict (msgs.length + 1) evs ⟨base, cap, 0, []⟩ (flat msgs) = msgs.map .msg ++ [.closed] := by
+  apply FV.C07_receiver_delivers t h hmin msgs _ base cap hbase hcap hfit evs hevs
+  intro m hm a' ha'
+  obtain ⟨a, ha, hv, hz⟩ := hmsgs m hm
+  obtain ⟨e1, e2⟩ := validate_any_addr t h m a a' ha ha'
+  rw [← e1, ← e2]; exact ⟨hv, hz⟩
+
+/-- **C07 (what the sender puts on the wire is such a message).** A representable content emplaced by the sender into any
+aligned buffer that is large enough: the first `size()` bytes of the result — what `send` writes — are `sizeSpec` bytes long, and
+they validate with that `size()` at the sender's address, hence (above) at the receiver's. -/
+theorem C07_emplaced_is_deliverable (t : Ty) (h : t.WF) (i : Init) (hw : InitWT t i) (hr : Rep t i) (s : Slice)
+    (hal : s.addr % t.dict.align = 0) (hlen : sizeSpec t i ≤ s.len) :
+    ∃ o, emplaceU t i s = .ok o ∧ o.res = .ok () ∧ (o.bytes.take (sizeSpec t i)).length = sizeSpec t i ∧
+      t.dict.validate ⟨s.addr, o.bytes.take (sizeSpec t i)⟩ = .ok () ∧
+      t.dict.size ⟨s.addr, o.bytes.take (sizeSpec t i)⟩ = .ok (sizeSpec t i) := by
+  obtain ⟨hacc, hge⟩ := emplaceU_acc i t h hw
+  have hmin : t.dict.minSize ≤ s.len := by omega
+  obtain ⟨o, ho, hok⟩ := emplaceU_ok i t h hw s hal hmin
+  obtain ⟨hiff, hsize⟩ := hacc s hal hmin o ho
+  have hres : o.res = .ok () := hiff.2 ⟨hr, hlen⟩
+  have hv : t.dict.validate ⟨s.addr, o.bytes⟩ = .ok () :=
+    validate_ok_iff.2 ⟨hal, by simp only [Slice.len, hok.len]; exact hmin, hok.valid hres⟩
+  obtain ⟨z, hz, hzle, _, h1, h2⟩ := C05_size_exact t h ⟨s.addr, o.bytes⟩ hv
+  have : z = sizeSpec t i := by rw [hsize hres] at hz; cases hz; rfl
+  subst this
+  refine ⟨o, ho, hres, ?_, h1, h2⟩
+  simp only [Slice.len] at hzle
+  simp only [List.length_take]; omega
 
 /-- non-vacuity: the hypotheses are met by a catalog type; two `u16` messages delivered in chunks of 1 and 3 bytes -/
 example : S1.WF ∧ 0 < S1.dict.minSize := ⟨S1_wf, by decide⟩
